@@ -357,7 +357,9 @@ func init() {
 				}
 			}
 			c.Regime = pickRegime(r)
-			if o.Positioner == 3 {
+			if o.Positioner == 3 && r.Intn(2) == 0 {
+				// the positioner works on an integer grid; the clauses of this property (same layout alone and in the union,
+				// components NodeSpacing apart) do not depend on that, so half of its cases keep fractional sizes
 				c.Regime = "integer"
 			}
 			if r.Intn(4) > 0 {
